@@ -49,6 +49,8 @@ var targets = []target{
 	{"block/aggregation.go", "", "getRemainingSleep"},
 	{"block/pending_base.go", "pendingBase", "numPending"},
 	{"block/pending_base.go", "pendingBase", "isEmpty"},
+	{"block/retriever.go", "Manager", "handlePotentialHeader"},
+	{"block/retriever.go", "Manager", "handlePotentialData"},
 	{"types/da.go", "", "SubmitWithHelpers"},
 	{"types/da.go", "", "RetrieveWithHelpers"},
 }
@@ -174,7 +176,7 @@ func (t *tr) expr(e ast.Expr) string {
 		case token.NOT:
 			return "(ENot " + t.expr(x.X) + ")"
 		case token.AND:
-			return "(EId " + t.expr(x.X) + ")"
+			return "(EAddr " + t.expr(x.X) + ")"
 		}
 		return "(EUnknown " + q("unary "+text(x)) + ")"
 	case *ast.BinaryExpr:
@@ -203,10 +205,12 @@ func (t *tr) expr(e ast.Expr) string {
 			ty = ty[i+1:]
 		}
 		var fs []string
-		for _, el := range x.Elts {
+		for i, el := range x.Elts {
 			kv, ok := el.(*ast.KeyValueExpr)
 			if !ok {
-				return "(EUnknown " + q("composite "+text(x)) + ")"
+				// positional literal: fields named by position
+				fs = append(fs, "("+q(strconv.Itoa(i))+", "+t.expr(el)+")")
+				continue
 			}
 			fs = append(fs, "("+q(text(kv.Key))+", "+t.expr(kv.Value)+")")
 		}
@@ -214,6 +218,13 @@ func (t *tr) expr(e ast.Expr) string {
 	case *ast.CallExpr:
 		switch f := x.Fun.(type) {
 		case *ast.Ident:
+			if f.Name == "new" && len(x.Args) == 1 {
+				ty := text(x.Args[0])
+				if i := strings.LastIndex(ty, "."); i >= 0 {
+					ty = ty[i+1:]
+				}
+				return "(ENew " + q(ty) + ")"
+			}
 			return "(ECall " + q(f.Name) + " " + t.exprs(x.Args) + ")"
 		case *ast.SelectorExpr:
 			if p, ok := t.isPkg(f.X); ok {
@@ -261,6 +272,9 @@ func (t *tr) stmt(s ast.Stmt) string {
 	case *ast.ExprStmt:
 		if c, ok := x.X.(*ast.CallExpr); ok && isLogger(c.Fun) {
 			return "(SSkip " + q("log") + ")"
+		}
+		if _, ok := x.X.(*ast.CallExpr); ok {
+			return "(SExpr " + t.expr(x.X) + ")"
 		}
 		return "(SUnknown " + q("expression statement "+text(x)) + ")"
 	case *ast.DeclStmt:
@@ -357,6 +371,29 @@ func (t *tr) stmt(s ast.Stmt) string {
 			init = t.stmt(x.Init) + "; "
 		}
 		return "(SIf [] (EBool true) [" + init + strings.TrimSuffix(strings.TrimPrefix(chain, "["), "]") + "] [])"
+	case *ast.SelectStmt:
+		// select { case <-ctx.Done(): <oncancel>; case ch <- v: }   (the cancellable send; nothing else is in the fragment)
+		if len(x.Body.List) == 2 {
+			var done *ast.CommClause
+			var send *ast.SendStmt
+			for _, c := range x.Body.List {
+				cc := c.(*ast.CommClause)
+				switch cm := cc.Comm.(type) {
+				case *ast.ExprStmt:
+					if u, ok := cm.X.(*ast.UnaryExpr); ok && u.Op == token.ARROW && strings.HasSuffix(text(u.X), ".Done()") {
+						done = cc
+					}
+				case *ast.SendStmt:
+					if len(cc.Body) == 0 {
+						send = cm
+					}
+				}
+			}
+			if done != nil && send != nil {
+				return "(SSendOrDone " + t.expr(send.Chan) + " " + t.expr(send.Value) + " " + t.block(&ast.BlockStmt{List: done.Body}) + ")"
+			}
+		}
+		return "(SUnknown " + q("select "+text(x)) + ")"
 	case *ast.ForStmt, *ast.RangeStmt:
 		return "(SUnknown " + q("loop") + ")"
 	case *ast.ReturnStmt:
